@@ -2,6 +2,7 @@ package sim
 
 import (
 	"fmt"
+	oracletypes "github.com/MinterTeam/mhub2/module/x/oracle/types"
 	"math/big"
 	"strconv"
 	"strings"
@@ -401,8 +402,11 @@ func normHolderAddr(a string) string {
 // maxDiscount computes, from the holder list the oracle module adopted and the published tiers, the discount
 // owed when any of the parties is a holder; the hub's own DiscountForHolder query must agree with it.
 func (o *C11) maxDiscount(w *World, addrs ...string) *big.Rat {
+	return o.maxDiscountWith(w, w.ReadState().OracleHolders(), true, addrs...)
+}
+
+func (o *C11) maxDiscountWith(w *World, holders *oracletypes.Holders, checkQuery bool, addrs ...string) *big.Rat {
 	best := new(big.Rat)
-	holders := w.ReadState().OracleHolders()
 	one := pow10(18)
 	for _, a := range addrs {
 		var held *big.Int
@@ -425,6 +429,9 @@ func (o *C11) maxDiscount(w *World, addrs ...string) *big.Rat {
 		}
 		if d.Cmp(best) > 0 {
 			best = d
+		}
+		if !checkQuery {
+			continue
 		}
 		// the public query is the user-visible face of the same table
 		var resp mhub2types.DiscountForHolderResponse
@@ -471,6 +478,10 @@ func (o *C11) AfterEnd(w *World) {
 			rcv = e.CosmosReceiver
 		case *mhub2types.TransferToChainEvent:
 			if e.ReceiverChainId != "hub" {
+				o.crossChainCommission(w, a.Chain, a.Nonce, e)
+				if w.Stopped() {
+					return
+				}
 				continue
 			}
 			rc, err := sdk.AccAddressFromHex(trim0x(e.ExternalReceiver))
@@ -510,5 +521,65 @@ func (o *C11) AfterEnd(w *World) {
 			w.Fail("C11", "credit", "deposit", fmt.Sprintf("observed deposits locked %s%s (hub units, truncated) for %s but the account was credited %s", want[k], parts[1], parts[0], delta))
 			return
 		}
+	}
+}
+
+// crossChainCommission: a deposit routed onward to another external chain is a withdrawal on that chain: it is
+// charged at most the DESTINATION token's configured rate (less the holder discount) on the locked amount.
+func (o *C11) crossChainCommission(w *World, srcChain string, nonce uint64, e *mhub2types.TransferToChainEvent) {
+	t := w.T()
+	dest := e.ReceiverChainId
+	var entry *mhub2types.SendToExternal
+	n := 0
+	for id, x := range t.Cur.Pool[dest] {
+		if _, old := t.PreEnd.Pool[dest][id]; old {
+			continue
+		}
+		if _, oldb := t.PreEnd.InBatch[dest][id]; oldb {
+			continue
+		}
+		if x.TxHash == e.TxHash && x.RefundChainId == srcChain {
+			entry = x
+			n++
+		}
+	}
+	denom, locked := w.lockedBy(srcChain, nonce)
+	if entry == nil || n != 1 || locked == nil {
+		return // the onward transfer failed on its own, or is not attributable
+	}
+	var rate *big.Rat
+	var dec uint64
+	for _, ti := range w.ReadState().TokenInfos() {
+		if ti.ChainId == dest && ti.Denom == denom {
+			rate, _ = new(big.Rat).SetString(ti.Commission.String())
+			dec = ti.ExternalDecimals
+		}
+	}
+	if rate == nil {
+		return
+	}
+	w.St.Check("C11:cross-chain-commission")
+	w.St.Probe("cross-chain-transfer-charged")
+	total := ratFloor(locked)
+	disc := o.maxDiscountWith(w, w.preEndHolders, false, e.Sender, e.ExternalReceiver)
+	if disc == nil {
+		return
+	}
+	exp := ratFloor(new(big.Rat).Mul(new(big.Rat).Mul(rate, new(big.Rat).Sub(big.NewRat(1, 1), disc)), new(big.Rat).SetInt(total)))
+	// recorded commission (destination external units) as an interval of hub units
+	c := entry.ValCommission.Amount.BigInt()
+	var cLo, cHi *big.Int
+	if dec >= 18 {
+		m := pow10(dec - 18)
+		cLo = new(big.Int).Quo(c, m)
+		cHi = new(big.Int).Quo(new(big.Int).Add(c, new(big.Int).Sub(m, big.NewInt(1))), m)
+	} else {
+		m := pow10(18 - dec)
+		cLo = new(big.Int).Mul(c, m)
+		cHi = new(big.Int).Add(cLo, new(big.Int).Sub(m, big.NewInt(1)))
+	}
+	slack := new(big.Int).Add(new(big.Int).Quo(total, pow10(18)), big.NewInt(2))
+	if cLo.Cmp(new(big.Int).Add(exp, slack)) > 0 || cHi.Cmp(new(big.Int).Sub(exp, slack)) < 0 {
+		w.Fail("C11", "commission", "cross-chain", fmt.Sprintf("%s -> %s transfer of %s %s (hub units) was charged a commission in [%s,%s]; the destination token's rate %s with holder discount %s implies %s", srcChain, dest, total, denom, cLo, cHi, rate.FloatString(6), disc.FloatString(2), exp))
 	}
 }
